@@ -320,6 +320,10 @@ struct PendingInbound {
 pub struct FaultPlan {
     /// (dialing node, ordinal of its dial/open call) that fails at the transport level
     pub fail_dials: BTreeSet<(usize, usize)>,
+    /// dials towards addresses nobody listens on stay pending (a SYN nobody answers) until `World::release_dead_dials`
+    pub hold_dead_dials: bool,
+    /// (node, connection id, addresses, via_open) of the dials held back by `hold_dead_dials`
+    pub held_dead_dials: Vec<(usize, usize, Vec<Multiaddr>, bool)>,
 }
 
 pub struct Link {
@@ -485,6 +489,10 @@ impl World {
     }
 
     fn node_of(&self, address: &Multiaddr) -> Option<usize> {
+        // 10.99.0.0/16 is the dead network: nobody listens there, whichever peer the address names
+        if address.iter().any(|p| matches!(p, multiaddr::Protocol::Ip4(ip) if ip.octets()[0] == 10 && ip.octets()[1] == 99)) {
+            return None;
+        }
         let p = PeerId::try_from_multiaddr(address)?;
         self.nodes.iter().position(|n| n.peer == p)
     }
@@ -500,6 +508,7 @@ impl World {
             self.nodes[i].calls_seen += calls.len();
             for call in calls {
                 progress = true;
+                simtrace(|| format!("node {i}: transport call {call:?}"));
                 match call {
                     Call::Dial { id, address } => self.start_connection(i, id, vec![address], false),
                     Call::Open { id, addresses } => self.start_connection(i, id, addresses, true),
@@ -524,6 +533,7 @@ impl World {
                         self.opened[i].remove(&id);
                     }
                     Call::Cancel { id } => {
+                        self.faults.held_dead_dials.retain(|(n, held, _, _)| !(*n == i && *held == id));
                         // TcpTransport::cancel is a no-op once ConnectionOpened was emitted for the id (the manager
                         // itself calls cancel(id) right before negotiate(id) in on_connection_opened)
                         if self.nodes[i].script.retract_open_result(id) {
@@ -549,6 +559,10 @@ impl World {
         let fail = self.faults.fail_dials.contains(&(i, ordinal));
         let reachable = target.as_ref().is_some_and(|(n, _)| self.nodes[*n].alive);
         if fail || !reachable {
+            if !fail && self.faults.hold_dead_dials {
+                self.faults.held_dead_dials.push((i, id, addresses, via_open));
+                return;
+            }
             if via_open {
                 let errors = addresses.into_iter().map(|a| (a, DialError::Timeout)).collect();
                 self.nodes[i].script.emit(TransportEvent::OpenFailure { connection_id: ConnectionId::from(id), errors });
@@ -578,6 +592,25 @@ impl World {
         self.pending_inbound[j].insert(id_b.verif_raw(), PendingInbound { from: i, io: end_b, remote_address });
         self.nodes[j].script.emit(TransportEvent::PendingInboundConnection { connection_id: id_b });
         self.links.push(Link { a: i, b: j, a_to_b: h_ab, b_to_a: h_ba, id_a: id, id_b: id_b.verif_raw() });
+    }
+
+    /// The dials held back by `hold_dead_dials` time out now (those the manager cancelled meanwhile were dropped from the
+    /// list: the transport says nothing about them, as `TcpTransport` does).
+    pub fn release_dead_dials(&mut self) {
+        self.faults.hold_dead_dials = false;
+        for (i, id, addresses, via_open) in std::mem::take(&mut self.faults.held_dead_dials) {
+            simtrace(|| format!("node {i}: held dial {id} to {addresses:?} times out"));
+            if via_open {
+                let errors = addresses.into_iter().map(|a| (a, DialError::Timeout)).collect();
+                self.nodes[i].script.emit(TransportEvent::OpenFailure { connection_id: ConnectionId::from(id), errors });
+            } else {
+                self.nodes[i].script.emit(TransportEvent::DialFailure {
+                    connection_id: ConnectionId::from(id),
+                    address: addresses[0].clone(),
+                    error: DialError::Timeout,
+                });
+            }
+        }
     }
 
     /// Network failure on a link: both directions see EOF.
